@@ -4,25 +4,9 @@ properties it is expected to break, and record the outcome in seeded/RESULTS.jso
 usage: SEED_JOBS=3 tools/seedmatrix.py [seed-or-property ...]"""
 import json, os, subprocess, sys, glob, time, queue, concurrent.futures
 
-PLAN = {   # seed -> properties whose checks are run against it
- 'C01-m1': ['C01'], 'C01-m2': ['C01'], 'C01-m3': ['C01', 'C04'],
- 'C03-m1': ['C03', 'C04', 'C12'], 'C03-m2': ['C03'], 'C03-m3': ['C03'],
- 'C04-m1': ['C04', 'C05'], 'C04-m2': ['C04', 'C20'], 'C04-m3': ['C04', 'C05'],
- 'C05-m1': ['C05'], 'C05-m2': ['C05'], 'C05-m3': ['C05'],
- 'C06-m1': ['C06'], 'C06-m2': ['C06', 'C04'], 'C06-m3': ['C06'],
- 'C07-m1': ['C07'], 'C07-m2': ['C07'], 'C07-m3': ['C07'],
- 'C09-m1': ['C09'], 'C09-m2': ['C09'], 'C09-m3': ['C09'],
- 'C10-m1': ['C10'], 'C10-m2': ['C10'], 'C10-m3': ['C10'],
- 'C12-m1': ['C12'], 'C12-m2': ['C12'], 'C12-m3': ['C12', 'C04'],
- 'C13-m1': ['C13'], 'C13-m2': ['C13'], 'C13-m3': ['C13', 'C04'],
- 'C17-m1': ['C17'], 'C17-m2': ['C17'], 'C17-m3': ['C17'],
- 'C18-m1': ['C18', 'C04'], 'C18-m2': ['C18'], 'C18-m3': ['C18'],
- 'C20-m1': ['C20'], 'C20-m2': ['C20'], 'C20-m3': ['C20'],
- 'C07-n1': ['C07', 'C01'], 'C07-n2': ['C07'], 'C07-n3': ['C07'],
- 'C20-n1': ['C20'], 'C20-n2': ['C20', 'C04'], 'C20-n3': ['C20', 'C04'],
- 'C04-n1': ['C04'], 'C04-n2': ['C04'], 'C04-n3': ['C04', 'C20'],
- 'C17-n1': ['C17'], 'C17-n2': ['C17'], 'C17-n3': ['C17'],
- 'C05-n1': ['C05'], 'C05-n2': ['C05', 'C06'], 'C05-n3': ['C05'],
+PLAN = {   # seed -> properties whose checks are run against it (own property first; extra ones where another check is the natural detector)
+ 'C01-m3': ['C01', 'C04'], 'C03-m1': ['C03', 'C04'], 'C06-m2': ['C06'], 'C12-m3': ['C12'], 'C13-m3': ['C13', 'C04'],
+ 'C18-m1': ['C18', 'C04'], 'C07-n1': ['C07', 'C01'], 'C05-n2': ['C05', 'C06'], 'C20-n2': ['C20'], 'C20-n3': ['C20'],
 }
 RES = '/verif/seeded/RESULTS.json'
 HEAD = subprocess.check_output(['git', '-C', '/repo', 'rev-parse', 'HEAD'], text=True).strip()
